@@ -214,6 +214,11 @@ func runC19(r *Rng, n int, tier string) {
 		}
 		emit(Case{ID: fmt.Sprintf("iso-%d", i), Kind: "isolation", In: J{"packages": ps, "orders": orders}, Impl: J{"skipped": skip}, Oracle: oracle, Detail: detail, Tags: tags})
 	}
+	// ---- isolation with SHARED schema files: the packages list different subsets of one migrations directory
+	// (a package pinned to an older prefix next to one that follows every migration)
+	for i := 0; i < n/2+2; i++ {
+		emit(sharedSchemaCase(r, fmt.Sprintf("shared-%d", i), tier))
+	}
 	// ---- concurrency: k generations at once, compared with the serial results
 	nc := n / 4
 	if nc < 3 {
@@ -263,4 +268,180 @@ func runC19(r *Rng, n int, tier string) {
 		}
 		emit(Case{ID: fmt.Sprintf("conc-%d", i), Kind: "concurrent", In: J{"runs": k, "distinct_inputs": distinct, "inputs": inputs}, Impl: J{"ok": oracle == ""}, Oracle: oracle, Tags: []string{fmt.Sprintf("runs=%d", k)}})
 	}
+}
+
+
+var sharedMigrations = map[string]struct {
+	init   string
+	pool   []string
+	rename string
+}{
+	"postgresql": {
+		"CREATE TYPE status AS ENUM ('a', 'b');\nCREATE TABLE authors (id bigint NOT NULL, name text NOT NULL, st status, bio text);\nCREATE TABLE books (id bigint NOT NULL, author_id bigint NOT NULL, title text);\nCREATE FUNCTION label(x text) RETURNS text AS $$ SELECT x $$ LANGUAGE sql;\n",
+		[]string{
+			"ALTER TABLE authors RENAME COLUMN name TO full_name;\n",
+			"ALTER TABLE authors ADD COLUMN age int;\n",
+			"ALTER TABLE authors DROP COLUMN bio;\n",
+			"ALTER TYPE status ADD VALUE 'c';\n",
+			"ALTER TABLE authors ALTER COLUMN bio SET NOT NULL;\n",
+			"ALTER TABLE authors ALTER COLUMN st TYPE text;\n",
+			"COMMENT ON TABLE authors IS 'people who write';\nCOMMENT ON COLUMN authors.id IS 'key';\n",
+			"CREATE SCHEMA archive;\nALTER TABLE books SET SCHEMA archive;\n",
+			"ALTER TYPE status RENAME TO state;\n",
+			"ALTER TYPE status RENAME VALUE 'a' TO 'z';\n",
+			"DROP TABLE books;\n",
+			"ALTER TABLE books RENAME TO volumes;\n",
+			"DROP FUNCTION label(text);\n",
+		},
+		"ALTER TABLE authors RENAME TO writers;\n",
+	},
+	"mysql": {
+		"CREATE TABLE authors (id bigint NOT NULL, name varchar(100) NOT NULL, st varchar(10), bio text);\nCREATE TABLE books (id bigint NOT NULL, author_id bigint NOT NULL, title varchar(100));\n",
+		[]string{
+			"ALTER TABLE authors RENAME COLUMN name TO full_name;\n",
+			"ALTER TABLE authors ADD COLUMN age int;\n",
+			"ALTER TABLE authors DROP COLUMN bio;\n",
+			"ALTER TABLE authors MODIFY COLUMN bio varchar(20) NOT NULL;\n",
+			"ALTER TABLE authors CHANGE COLUMN st state int;\n",
+			"CREATE TABLE authors_copy LIKE authors;\n",
+			"DROP TABLE books;\n",
+			"ALTER TABLE books RENAME TO volumes;\n",
+		},
+		"ALTER TABLE authors RENAME TO writers;\n",
+	},
+}
+
+func sharedSchemaCase(r *Rng, id, tier string) Case {
+	eng := "postgresql"
+	if r.Chance(30) {
+		eng = "mysql"
+	}
+	m := sharedMigrations[eng]
+	base := map[string]string{"migrations/001_init.sql": m.init}
+	perm := r.Perm(len(m.pool))
+	nm := 1 + r.Intn(3)
+	var names []string
+	for k := 0; k < nm; k++ {
+		fn := fmt.Sprintf("migrations/%03d_step.sql", k+2)
+		base[fn] = m.pool[perm[k]]
+		names = append(names, fn)
+	}
+	last := fmt.Sprintf("migrations/%03d_rename.sql", nm+2)
+	base[last] = m.rename
+	names = append(names, last)
+	np := 2 + r.Intn(3)
+	type spkg struct {
+		dir, lang string
+		schema    []string
+		table     string
+	}
+	var pkgs []spkg
+	for k := 0; k < np; k++ {
+		p := spkg{dir: fmt.Sprintf("p%d", k), lang: "go", table: "authors"}
+		if eng == "postgresql" {
+			p.lang = r.Pick([]string{"go", "go", "go", "kotlin", "python"})
+		}
+		p.schema = []string{"migrations/001_init.sql"}
+		switch {
+		case k == 0 || r.Chance(30):
+			p.schema = append(p.schema, names...) // follows every migration
+		case r.Chance(50):
+			p.schema = append(p.schema, names[:r.Intn(len(names))]...) // pinned to a prefix
+		default:
+			for _, fn := range names {
+				if r.Bool() {
+					p.schema = append(p.schema, fn)
+				}
+			}
+		}
+		if p.schema[len(p.schema)-1] == last {
+			p.table = "writers"
+		}
+		pkgs = append(pkgs, p)
+	}
+	ph := "$1"
+	if eng == "mysql" {
+		ph = "?"
+	}
+	entry := func(p spkg, files map[string]string) string {
+		for k, v := range base {
+			files[k] = v
+		}
+		files[p.dir+"/q.sql"] = fmt.Sprintf("-- name: All%s :many\nSELECT * FROM %s;\n\n-- name: One%s :one\nSELECT * FROM %s WHERE id = %s;\n", strings.Title(p.dir), p.table, strings.Title(p.dir), p.table, ph)
+		gen := ""
+		switch p.lang {
+		case "go":
+			gen = fmt.Sprintf(`"go":{"package":%q,"out":%q}`, p.dir, "out/"+p.dir)
+		case "kotlin":
+			gen = fmt.Sprintf(`"kotlin":{"package":"com.example.%s","out":%q}`, p.dir, "out/"+p.dir)
+		case "python":
+			gen = fmt.Sprintf(`"python":{"package":%q,"out":%q}`, p.dir, "out/"+p.dir)
+		}
+		return fmt.Sprintf(`{"engine":%q,"schema":%s,"queries":%q,"gen":{%s}}`, eng, jsonStr(p.schema), p.dir+"/q.sql", gen)
+	}
+	tags := []string{"shared-schema-files", eng}
+	alone := make([]GenResult, np)
+	skip := false
+	distinct := map[string]bool{}
+	for k, p := range pkgs {
+		files := map[string]string{}
+		e := entry(p, files)
+		files["sqlc.json"] = confV2([]string{e})
+		alone[k] = generate(files)
+		if !alone[k].OK() {
+			skip = true
+		}
+		distinct[strings.Join(p.schema, ",")] = true
+	}
+	if len(distinct) > 1 {
+		tags = append(tags, "different-subsets")
+	}
+	if skip {
+		tags = append(tags, "a-package-fails-alone")
+	}
+	oracle := ""
+	var detail J
+	norders := 3
+	if tier == "thorough" {
+		norders = 8
+	}
+	var orders [][]int
+	for o := 0; o < norders && !skip; o++ {
+		perm := r.Perm(np)
+		if o == 0 {
+			perm = nil
+			for k := 0; k < np; k++ {
+				perm = append(perm, k)
+			}
+		}
+		orders = append(orders, perm)
+		files := map[string]string{}
+		var entries []string
+		for _, k := range perm {
+			entries = append(entries, entry(pkgs[k], files))
+		}
+		files["sqlc.json"] = confV2(entries)
+		res := generate(files)
+		if !res.OK() {
+			oracle = fmt.Sprintf("order %v: every package generates alone but the multi-package run fails: %s", perm, firstLine(res.Stderr))
+			detail = J{"files": files}
+			break
+		}
+		for k, p := range pkgs {
+			got := filterPrefix(res.Files, "out/"+p.dir+"/")
+			if d := diffFiles(alone[k].Files, got); d != "" {
+				oracle = fmt.Sprintf("order %v: output of package %s (schema %v) differs from generating it alone: %s", perm, p.dir, p.schema, d)
+				detail = J{"files": files}
+				break
+			}
+		}
+		if oracle != "" {
+			break
+		}
+	}
+	var ps []J
+	for _, p := range pkgs {
+		ps = append(ps, J{"dir": p.dir, "lang": p.lang, "schema": p.schema, "table": p.table})
+	}
+	return Case{ID: id, Kind: "isolation", In: J{"packages": ps, "orders": orders, "migrations": base}, Impl: J{"skipped": skip}, Oracle: oracle, Detail: detail, Tags: tags}
 }
